@@ -512,15 +512,28 @@ def rejected_call_stream(ctx, case, cfg, pd, data, truth, twin, mask, mean_I, pi
             ctx.dist["rejected.history-abandoned(call accepted)"] += 1
             return
         rebuild = rng.weighted([("none", 3), ("reset_recon", 2), ("preprocess", 2), ("to_cpu", 1), ("compute_propagator_arrays", 1)])
-        cp.valid_rebuild(q, cfg, truth, rebuild)
         lt = rng.choice(list(cp.LOSS_TYPES))
         bsize = rng.choice([n, 1, rng.randint(2, max(2, n - 1))])
         call = {"rebuild": rebuild, "loss_type": lt, "batch_size": bsize}
         hist.append(call)
         ctx.dist[f"rejected.then:{rebuild}"] += 1
-        recs = cp.reconstruct_call(q, cfg, truth, lt, bsize, False, rng.chance(0.8), k == 0 or rng.chance(0.5))
         hcase = {**case, "rejected_history": [dict(h) for h in hist]}
         names = ", ".join(h["rejected"]["name"] for h in hist if "rejected" in h)
+        autograd, pass_opt = rng.chance(0.8), k == 0 or rng.chance(0.5)
+        try:
+            cp.valid_rebuild(q, cfg, truth, rebuild)
+            recs = cp.reconstruct_call(q, cfg, truth, lt, bsize, False, autograd, pass_opt)
+        except Exception as e:   # noqa: BLE001
+            import traceback
+            frames = [f for f in traceback.extract_tb(e.__traceback__) if "/quantem/" in f.filename.replace("\\", "/")]
+            if not frames or str(e).startswith("harness:"):
+                raise
+            ctx.dist["rejected.valid-call-raises"] += 1
+            ctx.pred_fail("rejected-call-history-raises", f"a VALID call ({rebuild} + reconstruct()) raises after refused calls ({names}) — the pipeline cannot be evaluated "
+                          "although every accepted call was valid", hcase,
+                          observed=f"{type(e).__name__}: {str(e)[:140]} (at {frames[-1].filename.split('/quantem/')[-1]}:{frames[-1].lineno} {frames[-1].name})",
+                          required="refused calls change nothing: the valid call succeeds as on an untouched object")
+            return
         twin_compare(ctx, "rejected-call-history", hcase, recs, twin, pd, data, mask, mean_I, pix, lt, bsize, applicable, clipped, key,
                      f"rejected calls ({names}) followed by {rebuild} + reconstruct()")
 
@@ -779,7 +792,18 @@ def index_history_stream(ctx, drv, case, cfg, p0, H, W, rng):
         kind = rng.weighted([("assign", 4), ("assign_bad_shape", 2), ("forward", 4)])
         if kind == "assign":
             new = cur.copy()
-            for i in range(n):
+            mode = rng.weighted([("scatter", 3), ("within-floor-cell", 3), ("within-round-cell", 2)])
+            ctx.dist[f"positions.history.assign:{mode}"] += 1
+            if mode != "scatter":
+                # SMALL moves of every position: inside its integer cell [k, k+1) (the rounded pixel may change, floor does not) or
+                # inside its rounding cell (the rounded pixel stays: the cached indices must be served) — what decides whether
+                # `patch_indices_need_update` fires is the whole tensor, so every coordinate has to stay in its cell
+                base = np.floor(cur) if mode == "within-floor-cell" else np.round(cur)
+                offs = [0.0, 0.125, 0.375, 0.5, 0.625, 0.875] if mode == "within-floor-cell" else [-0.375, -0.125, 0.0, 0.25, 0.375]
+                for i in range(n):
+                    for a in (0, 1):
+                        new[i, a] = base[i, a] + rng.choice(offs)
+            for i in range(n if mode == "scatter" else 0):
                 for a, size in ((0, H), (1, W)):
                     c = rng.weighted([("keep", 4), ("tie", 3), ("int", 2), ("eighth", 3), ("outside", 1), ("negative", 1)])
                     if c == "tie":
